@@ -194,11 +194,11 @@ impl DenominationStrategy for CanonicalOneTwoFive {
             if crossing_values.is_empty() {
                 break 0;
             }
+            // A layout whose fees do not even fit in a `u64` cannot fit the balance either.
             let fits = prep_tx_count(&typed(&notes)).filter(|&n| {
-                notes
-                    .iter()
-                    .sum::<u64>()
-                    .checked_add(n as u64 * prep_tx_fee_zatoshi)
+                (n as u64)
+                    .checked_mul(prep_tx_fee_zatoshi)
+                    .and_then(|fees| notes.iter().sum::<u64>().checked_add(fees))
                     .is_some_and(|c| c <= total_input_zatoshi)
             });
             match fits {
